@@ -3,7 +3,7 @@ import os, sys
 sys.path.insert(0, os.path.join(os.path.dirname(os.path.abspath(__file__)), '..', 'lib'))
 import vcommon as V, e2e
 
-PROPS = ['props/C01.v', 'props/Pipeline.v', 'props/C01_src.v', 'props/State.v']
+PROPS = ['props/C01.v', 'props/Pipeline.v', 'props/C01_src.v', 'props/State.v', 'props/Soundness.v']
 ASSUMPTIONS = e2e.ASSUMPTIONS
 EXPLANATION = ("Theorems about the pipeline model for arbitrary stage components: acceptance implies a non-empty key set and a "
                "verifying signature for every supplied key over the metadata whose payload is then enforced; any failure of that "
